@@ -98,6 +98,27 @@ def _run(res, work):
         if missing:
             broken.append(("correspondence", "Builder methods not driven by the harness: " + ", ".join(missing)))
 
+    # every field of the generated table, and whether some driven method writes it
+    gen_text = open(os.path.join(GENERATED, "Options.lean")).read()
+    all_fields = re.findall(r"(?m)^def spec_(\w+) : OptSpec", gen_text)
+    driven = set((rep or {}).get("driver_methods", []))
+    written = {}
+    for m in re.finditer(r"(?m)^def eff_(\w+) : MethodEffect := ⟨\.\w+, \.\w+, \d+, \[(.*)\], (true|false)⟩$", gen_text):
+        for f in re.findall(r"\(\.(\w+), ", m.group(2)):
+            written.setdefault(f, []).append((m.group(1), m.group(3) == "true"))
+    field_report = {}
+    for f in all_fields:
+        ms = written.get(f, [])
+        ok_ms = [m for m, exp in ms if not exp and m in driven]
+        if ok_ms:
+            continue
+        if not ms:
+            field_report[f] = "no Builder method writes this field (derived or dead field)"
+        elif all(exp for _, exp in ms):
+            field_report[f] = "only written by a method that needs the `experimental` cargo feature"
+        else:
+            field_report[f] = "methods %s are not in the harness dispatcher" % ", ".join(m for m, _ in ms)
+
     for cls, inp in oracle_inputs[:4]:
         res.violation("oracle-failure", cls, json.dumps(inp)[:2500], replay_input=inp, found_input=True)
     if broken and not oracle_inputs:
@@ -134,7 +155,9 @@ def _run(res, work):
         "class_histogram": r.get("class_histogram"), "ops_per_case_histogram": r.get("ops_per_case_histogram"),
         "outcome_histogram": r.get("outcome_histogram"), "known": r.get("known"),
         "option_table": r.get("table"),
-        "fields_not_settable_by_driver": unsettable,
+        "fields_in_table": len(all_fields),
+        "fields_not_settable_by_driver": field_report,
+        "methods_without_enumerated_values": unsettable,
         "translator_log": tlog,
         "exhaustive": False,
     })
